@@ -49,6 +49,9 @@ def ark_ec_models():
         (r'^ark_ec::twisted_edwards::Projective::<.*>::new$', m_te_projective_new),
         (r'^ark_ec::twisted_edwards::Projective::<.*>::new_unchecked$', m_te_projective_new_unchecked),
         (r'^ark_ec::twisted_edwards::Affine::<.*>::new_unchecked$', m_te_affine_new_unchecked),
+        (r'^ark_ec::twisted_edwards::Affine::<.*>::zero$', lambda I, fr, fn, a: Agg('Affine', [FE.const('Fq', 0), FE.const('Fq', 1)])),
+        (rf'^<{PA} as ark_ec::AffineRepr>::zero$', lambda I, fr, fn, a: Agg('Affine', [FE.const('Fq', 0), FE.const('Fq', 1)])),
+        (rf'^<{PP} as ark_ff::Zero>::zero$', lambda I, fr, fn, a: Agg('Projective', [FE.const('Fq', 0), FE.const('Fq', 1), FE.const('Fq', 0), FE.const('Fq', 1)])),
     ]
 
 def canonical_parse_model(I, fr, fn, a):
@@ -623,4 +626,95 @@ def check_negate_poly():
         for lbl, g in goals:
             st, dt, info = certificate(g, [inv])
             obs.append(Ob(f'ark:Element::negate: {lbl}', 'proved' if st == 'proved' else 'violated', info, dt, 'cofactor certificate + z3 identity', None, None if st == 'proved' else {'kind': 'negate'}))
+    return obs
+
+# ---------------------------------------------------------------------------------------------- C06: batch normalisation at coordinate level
+def check_batch_poly(sizes=None, fns=('normalize_batch', 'batch_convert_to_mul_base')):
+    """CurveGroup::normalize_batch / ScalarMul::batch_convert_to_mul_base of the arkworks build at coordinate level: for every
+    batch of valid projective representatives (Z != 0, on the curve, T Z = X Y), on every path, output i is the
+    affine point of input i up to the representative decaf identifies:  (x_i, y_i) = +-(X_i/Z_i, Y_i/Z_i).  (The provenance-domain check in group.check_constructors can only follow
+    code that delegates to the inner group; this one follows code that touches coordinates, inverses and zero tests itself.)"""
+    items = items_for('ark'); obs = []
+    if sizes is None: sizes = (0, 1, 2, 3) if common.tier() == 'quick' else (0, 1, 2, 3, 4)
+    PP = r'ark_ec::twisted_edwards::Projective<ark_curve::edwards::Decaf377EdwardsConfig>'
+    E = r'^ark_curve::element::<impl at src/ark_curve/element.rs:\d+:1: \d+:\d+>::'
+    def unvec(I, v):
+        v = models.D(I, v)
+        while isinstance(v, Agg) and len(v.fields) == 1 and not (v.name in ('Projective', 'Affine')): v = v.fields[0]
+        return v
+    def m_inner_batch(I, fr, fn, a):
+        xs = I.deref(a[0])
+        out = []
+        for p in xs:
+            r = m_te_projective_to_affine(I, fr, fn, [p])
+            if r is NotImplemented: return NotImplemented
+            out.append(r)
+        return Agg('alloc::vec::Vec', [out])
+    def m_batch_inversion(I, fr, fn, a):
+        sl = a[0]; xs = I.deref(sl)
+        for i, x in enumerate(list(xs)):
+            x = models.D(I, x)
+            if not isinstance(x, FE): return NotImplemented
+            r = models.m_fe_inverse(I, fr, fn, [x])
+            if r.variant == 'Some': xs[i] = r.fields[0]
+        if isinstance(sl, SliceRef):
+            arr = I.deref(sl.base)
+            for i, x in enumerate(xs): arr[sl.start + i] = x
+        return models.UNIT
+    def m_inner_is_zero(I, fr, fn, a):
+        p = models.D(I, a[0]); p = models.D(I, p)
+        if not (isinstance(p, Agg) and p.name == 'Projective'): return NotImplemented
+        x, y, t, z = p.fields
+        return models.fe_is_zero(I, x) and models.fe_eq(I, y, z) and (not models.fe_is_zero(I, y)) and models.fe_is_zero(I, t)
+    M = curve_models('ark', extra=[(rf'^<{PP} as ark_ec::CurveGroup>::normalize_batch$', m_inner_batch), (rf'^<{PP} as ark_ec::ScalarMul>::batch_convert_to_mul_base$', m_inner_batch),
+                                   (r'^ark_ff::batch_inversion::<', m_batch_inversion), (rf'^<{PP} as ark_ff::Zero>::is_zero$', m_inner_is_zero)])
+    d = FE.const('Fq', spec.Dd)
+    for fnname in fns:
+        try: it = find_item(items, E + fnname + '$')
+        except Unsupported as e:
+            obs.append(Ob(f'ark:{fnname} (coordinate level)', 'inconclusive', str(e), 0, 'mirsym/POLY')); continue
+        for n in sizes:
+            name = f'ark:{fnname} of {n} valid elements returns the same elements as affine points (coordinate level)'
+            def body(I, h, it=it, n=n):
+                els = []; cos = []
+                for i in range(n):
+                    el, co = sym_element('ark', [f'X{i}', f'Y{i}', f'Z{i}', f'T{i}']); els.append(el); cos.append(co)
+                h.locals['v'] = els
+                I.ctx.nonzero = [f'Z{i}' for i in range(n)]
+                return I.call_item(it, [SliceRef(Ref(h, 'v', []), 0, n)]), cos
+            t0 = time.time()
+            try: recs = run_paths(items, M, body, max_paths=2000)
+            except Exception as e:
+                obs.append(Ob(name, 'inconclusive', f'{type(e).__name__}: {e} :: ' + ' <- '.join(getattr(e, 'mir_stack', [])[:3]), time.time() - t0, 'mirsym/POLY')); continue
+            bad = None; npaths = 0; tot = 0; inconc = None
+            for r in recs:
+                if 'pruned' in r: continue
+                zh = r['ctx'].__dict__.get('zero_hyps', {})
+                # paths on which some Z_i = 0 was assumed contradict validity
+                if any(h_.key() == FE.sym('Fq', f'Z{i}').key() for h_ in zh.values() for i in range(n)): continue
+                npaths += 1
+                if 'panic' in r: bad = f'panics on path {describe_path(r)}: ' + r['panic']; break
+                res, cos = r['result']
+                out = unvec(r['interp'], res)
+                if not isinstance(out, list) or len(out) != n: bad = f'returns {len(out) if isinstance(out, list) else "?"} points for {n} inputs'; break
+                hyps = list(zh.values()) + side_polys(r['side'])
+                for i_, (X, Y, Z, T) in enumerate(cos):
+                    hyps += [Y.square().sub(X.square()).sub(Z.square()).sub(d.mul(T.square())), T.mul(Z).sub(X.mul(Y))]
+                    hyps.append(Z.mul(FE.sym('Fq', f'ZI{i_}')).sub(FE.const('Fq', 1)))      # Z_i != 0 (Rabinowitsch)
+                for i, (pt, (X, Y, Z, T)) in enumerate(zip(out, cos)):
+                    a_ = unvec(r['interp'], pt)
+                    if not (isinstance(a_, Agg) and a_.name == 'Affine'): bad = f'output {i} is not an affine point: {a_!r}'[:200]; break
+                    x, y = a_.fields
+                    # the same element: (x, y) = +-(X/Z, Y/Z)  (P and P + (0,-1) are the two representatives decaf identifies;
+                    # an identity given as (0 : -Z : 0 : Z) may come back as (0, 1))
+                    for lbl, g in ((f'x_{i}^2 Z_{i}^2 = X_{i}^2', x.square().mul(Z.square()).sub(X.square())), (f'y_{i}^2 Z_{i}^2 = Y_{i}^2', y.square().mul(Z.square()).sub(Y.square())), (f'x_{i} Y_{i} = y_{i} X_{i}', x.mul(Y).sub(y.mul(X)))):
+                        if g.is_zero_poly(): continue
+                        st, dt, info = certificate(g, hyps); tot += dt
+                        if st != 'proved':
+                            bad = f'output {i} is not +-(affine point of input {i}) ({lbl} fails) on path {describe_path(r)}'; break
+                    if bad: break
+                if bad: break
+            if bad: obs.append(Ob(name, 'violated', bad, time.time() - t0, 'mirsym/POLY + cofactor certificates', None, {'kind': 'constructor', 'which': fnname, 'build': 'ark'}))
+            elif npaths == 0: obs.append(Ob(name, 'inconclusive', 'no feasible path', time.time() - t0, 'mirsym/POLY'))
+            else: obs.append(Ob(name, 'proved', f'{npaths} paths', time.time() - t0, 'mirsym/POLY + cofactor certificates', {'paths': npaths}))
     return obs
